@@ -54,9 +54,14 @@ def _one(args) -> Dict[str, Any]:
             src = f.read()
     except OSError:
         return {"name": name, "status": "inapplicable", "why": f"{relpath} missing"}
-    if src.count(old) != 1:
-        return {"name": name, "status": "inapplicable", "why": f"anchor text occurs {src.count(old)} times in {relpath}"}
-    mutated = src.replace(old, new)
+    olds = list(old) if isinstance(old, (list, tuple)) else [old]
+    news = list(new) if isinstance(new, (list, tuple)) else [new]
+    mutated = src
+    for o_, n_ in zip(olds, news):
+        if mutated.count(o_) != 1:
+            return {"name": name, "status": "inapplicable",
+                    "why": f"anchor text occurs {mutated.count(o_)} times in {relpath}"}
+        mutated = mutated.replace(o_, n_)
     try:
         ast.parse(mutated)
     except SyntaxError as e:
